@@ -271,3 +271,82 @@ func concreteString(s StrVal) (string, bool) {
 	}
 	return string(out), true
 }
+
+// cloner deep-copies a value graph, preserving aliasing between cells and maps (terms are immutable and shared).
+type cloner struct {
+	cells map[*Cell]*Cell
+	maps  map[*MapVal]*MapVal
+}
+
+func newCloner() *cloner { return &cloner{cells: map[*Cell]*Cell{}, maps: map[*MapVal]*MapVal{}} }
+
+func (c *cloner) cell(x *Cell) *Cell {
+	if x == nil {
+		return nil
+	}
+	if n, ok := c.cells[x]; ok {
+		return n
+	}
+	n := &Cell{}
+	c.cells[x] = n
+	n.V = c.value(x.V)
+	return n
+}
+
+func (c *cloner) value(v Value) Value {
+	switch x := v.(type) {
+	case *StructVal:
+		n := &StructVal{Fields: make([]Value, len(x.Fields))}
+		for i, f := range x.Fields {
+			n.Fields[i] = c.value(f)
+		}
+		return n
+	case *ArrayVal:
+		n := &ArrayVal{Elems: make([]Value, len(x.Elems))}
+		for i, f := range x.Elems {
+			n.Elems[i] = c.value(f)
+		}
+		return n
+	case SliceVal:
+		x.Arr = c.cell(x.Arr)
+		if x.Blob != nil {
+			x.Blob = c.value(x.Blob)
+		}
+		return x
+	case PtrVal:
+		x.Root = c.cell(x.Root)
+		return x
+	case IfaceVal:
+		x.V = c.value(x.V)
+		return x
+	case *ClosureVal:
+		if x == nil {
+			return x
+		}
+		n := &ClosureVal{Fn: x.Fn, Free: make([]Value, len(x.Free))}
+		for i, f := range x.Free {
+			n.Free[i] = c.value(f)
+		}
+		return n
+	case MapRef:
+		if x.M == nil {
+			return x
+		}
+		if n, ok := c.maps[x.M]; ok {
+			return MapRef{M: n}
+		}
+		n := &MapVal{}
+		c.maps[x.M] = n
+		for _, en := range x.M.Entries {
+			n.Entries = append(n.Entries, MapEntry{K: c.value(en.K), V: c.value(en.V)})
+		}
+		return MapRef{M: n}
+	case TupleVal:
+		n := make(TupleVal, len(x))
+		for i, f := range x {
+			n[i] = c.value(f)
+		}
+		return n
+	}
+	return v
+}
